@@ -40,21 +40,46 @@ func (b *balanceCache) Reset(expireAfter time.Duration) {
 	b.version++
 }
 
+// Delete forgets what is cached for the account.
+func (b *balanceCache) Delete(account store.Account) {
+	b.mu.Lock()
+	defer b.mu.Unlock()
+	b.version++
+	delete(b.cache, account)
+}
+
 func (b *balanceCache) Set(account store.Account, amount *big.Int) {
 	b.mu.Lock()
 	defer b.mu.Unlock()
 	b.set(account, amount)
 }
 
+// SetProvisional caches a value that nothing will confirm or correct if it
+// turns out wrong: it is forgotten after expireAfter (or the cache's own
+// expiry, whichever is shorter).
+func (b *balanceCache) SetProvisional(account store.Account, amount *big.Int, expireAfter time.Duration) {
+	b.mu.Lock()
+	defer b.mu.Unlock()
+	if b.expireAfter != 0 && b.expireAfter < expireAfter {
+		expireAfter = b.expireAfter
+	}
+	b.setExpiring(account, amount, expireAfter)
+}
+
 // set must be called with the lock held.
 func (b *balanceCache) set(account store.Account, amount *big.Int) {
+	b.setExpiring(account, amount, b.expireAfter)
+}
+
+// setExpiring must be called with the lock held.
+func (b *balanceCache) setExpiring(account store.Account, amount *big.Int, expireAfter time.Duration) {
 	b.version++
 	if b.cache == nil {
 		b.cache = map[store.Account]balanceItem{}
 	}
 	expire := time.Time{}
-	if b.expireAfter != 0 {
-		expire = b.now().Add(b.expireAfter)
+	if expireAfter != 0 {
+		expire = b.now().Add(expireAfter)
 	}
 	b.cache[account] = balanceItem{
 		amount,
